@@ -115,6 +115,7 @@ def generate(reg, key, budget=None, parallel=None):
                 it = Interp(ctx, reg, False, key)
                 it._target_mod = mod
                 vals = build_args(it, c, fn, cls, case)
+                it.ghost_args = {g: vals[g] for g in c.ghost_params}
                 closure_env = None
                 if enclosing or c.closure:
                     cv = {"__module__": mod}
@@ -483,11 +484,25 @@ def discharge_one(ob, timeout_s=10.0, use_cvc5=True):
             r3, s3 = _z3_try(ob, timeout_s, seed=7)
             m = s3.model() if r3 == z3.sat else None
             return {"verdict": "refuted", "backend": "cvc5", "time": time.time() - t0, "model": m}
-    r, s = _z3_try(ob, timeout_s, seed=7)
-    if r == z3.unsat:
-        return {"verdict": "proved", "backend": "z3", "time": time.time() - t0}
-    if r == z3.sat:
-        return {"verdict": "refuted", "backend": "z3", "time": time.time() - t0, "model": s.model()}
+    # the first attempt had a short budget (it may simply have been starved on a busy machine): the same query with
+    # the full budget, then another seed
+    # ... and once in a fresh z3 context built from the SMT-LIB text: z3's heuristics depend on the internal ids of
+    # the terms, i.e. on everything this process has solved before; the verdict should depend on the VC only
+    try:
+        c2 = z3.Context()
+        s2 = z3.Solver(ctx=c2)
+        s2.set("timeout", int(timeout_s * 1000))
+        s2.from_string(s.to_smt2())
+        if timed_check(s2, timeout_s + 0.5) == z3.unsat:
+            return {"verdict": "proved", "backend": "z3 (fresh context)", "time": time.time() - t0}
+    except Exception:  # noqa: BLE001
+        pass
+    for seed in (0, 7):
+        r, s = _z3_try(ob, timeout_s, seed=seed)
+        if r == z3.unsat:
+            return {"verdict": "proved", "backend": "z3", "time": time.time() - t0}
+        if r == z3.sat:
+            return {"verdict": "refuted", "backend": "z3", "time": time.time() - t0, "model": s.model()}
     for K in (2, 3):
         m = bounded_refute(ob, timeout_s, K)
         if m is not None:
